@@ -329,6 +329,72 @@ theorem C05_old_order_witness_gir :
     ∧ (validate aliasWitness).map (fun r => GirWF.girWellFormed (emitAliasWitness r.2.1.tf)) = some true := by
   decide +kernel
 
+/-! ### accessor names (`_introspectable_property_analysis`) -/
+
+/-- "an inferred property setter or getter and the method's set-property or get-property agree":
+    the property analysis of the pass keeps that agreement.  If it holds when the pass starts
+    (established by `MainTransformer._pair_property_accessors`; judged on the real output by
+    `girWellFormed`), it holds afterwards: a property whose type turns out not to be
+    introspectable loses both accessors AND every method naming it loses its set-property or get-property.
+    Hypotheses (AST invariants): the property names of a class are distinct (GObject guarantees
+    it), and a property that is already non-introspectable carries no accessor (the accessor
+    pairing skips such properties). -/
+theorem C05_accessors (ns : NS) (tf : List Bool) (t : Top)
+    (huniq : ∀ p ∈ t.props, ∀ q ∈ t.props, p.name = q.name → p = q)
+    (hdead : ∀ p ∈ t.props, p.intro = false → p.setter = none ∧ p.getter = none)
+    (h : AccAgree t.props t.subs) :
+    AccAgree (accessorsAfter ns tf t).1 (accessorsAfter ns tf t).2 :=
+  accessorsAfter_agree ns tf t huniq hdead h
+
+/-- Without any hypothesis: after the property analysis of a node that is not skipped, a property
+    whose type is not introspectable is marked and has neither setter nor getter, and no method's
+    set-property / get-property names a property that is marked. -/
+theorem C05_accessors_cleared (ns : NS) (tf : List Bool) (t : Top) (hs : t.skip = false) :
+    (∀ p ∈ t.props, tyIntro ns tf p.ty = false →
+        ∃ p' ∈ (accessorsAfter ns tf t).1, p'.name = p.name ∧ p'.intro = false ∧ p'.setter = none ∧ p'.getter = none)
+    ∧ (∀ f ∈ (accessorsAfter ns tf t).2, f.isMethod = true → ∀ pn, f.setProp = some pn ∨ f.getProp = some pn →
+        ∀ p' ∈ (accessorsAfter ns tf t).1, p'.name = pn → p'.intro = true) := by
+  unfold accessorsAfter
+  simp only [hs, Bool.false_eq_true, if_false]
+  refine ⟨fun p hp hty => ⟨propAfter ns tf p, List.mem_map.mpr ⟨p, hp, rfl⟩, ?_⟩, ?_⟩
+  · simp [propAfter, hty]
+  · intro f' hf' hm' pn hpn p' hp' hn
+    obtain ⟨f, hf, rfl⟩ := List.mem_map.mp hf'
+    have hfm : f.isMethod = true := by
+      unfold methodAfter at hm'; split at hm'
+      · assumption
+      · exact hm'
+    simp only [methodAfter, hfm, if_true] at hpn
+    rcases hpn with h | h
+    · exact (clearAcc_some h).2 p' hp' hn
+    · exact (clearAcc_some h).2 p' hp' hn
+
+/-- class with properties `title` (string, set_title / get_title) and `hid` (a type that is not
+    introspectable, set_hid / get_hid) -/
+def accessorWitness : Top :=
+  { name := "O".toList, skip := false, intro := true,
+    body := .compound false []
+      [{ name := "title".toList, intro := true, ty := .fund "utf8".toList,
+         setter := some "set_title".toList, getter := some "get_title".toList },
+       { name := "hid".toList, intro := true, ty := .ext false false .other,
+         setter := some "set_hid".toList, getter := some "get_hid".toList }]
+      [{ name := "set_title".toList, skip := false, intro := true, isMethod := true, setProp := some "title".toList,
+         sig := { params := [{ ty := .fund "utf8".toList }], ret := { ty := .fund "none".toList } } },
+       { name := "get_title".toList, skip := false, intro := true, isMethod := true, getProp := some "title".toList,
+         sig := { params := [], ret := { ty := .fund "utf8".toList } } },
+       { name := "set_hid".toList, skip := false, intro := true, isMethod := true, setProp := some "hid".toList,
+         sig := { params := [{ ty := .ext false false .other }], ret := { ty := .fund "none".toList } } },
+       { name := "get_hid".toList, skip := false, intro := true, isMethod := true, getProp := some "hid".toList,
+         sig := { params := [], ret := { ty := .ext false false .other } } }] }
+
+/-- non-vacuity of `C05_accessors` / `C05_accessors_cleared`: `hid` loses its accessors and the
+    two methods their set-property or get-property, `title` and its methods keep theirs -/
+example :
+    let r := accessorsAfter { name := "Foo".toList, tops := [accessorWitness] } [true] accessorWitness
+    r.1.map (fun p => (p.intro, p.setter.isSome, p.getter.isSome)) = [(true, true, true), (false, false, false)]
+    ∧ r.2.map (fun m => (m.setProp.isSome, m.getProp.isSome)) = [(true, false), (false, true), (false, false), (false, false)] := by
+  decide
+
 /-! ### the writer's indices -/
 
 /-- The writer model emits only in-range closure / destroy / length indices, or raises: every
